@@ -35,8 +35,16 @@ ASSUMPTIONS = [
     'SHA-256 / RIPEMD-160 are the executable Gallina transcriptions (validated against hashlib in every run, not proved '
     'equal to FIPS 180-4); ec_point (fastecdsa) = textbook double-and-add is validated by the correspondence only',
     'not modelled: WIF / BIP38 / extended-key / mnemonic inputs and strings that reach the base58 recogniser of '
-    'get_key_format (C12), the is_private and password arguments, explicit prefix / witness_type / network_overrides '
-    'arguments of Address, the address cache of a Key object across several address() calls (every request uses a fresh object)',
+    'get_key_format (C12), the is_private and password arguments, the network_overrides argument of Address',
+    'outside the Gallina model, judged by the independent property-level oracle only (the driver answers OOS): request addrx = '
+    'argument combinations of Address(...) (witness_type / script_type / encoding alone, together, contradicting; prefix=, witver, '
+    'compressed, str / bytes / positional data, hashed_data), Key.address / address_uncompressed / address_obj, HDKey(witness_type=).address, '
+    'Address.parse; request sess = histories on ONE Key / HDKey object (address calls with changing arguments, hash160 and public_* '
+    'reads, network_change / network assignment, public()), each answer compared with the stateless standard address for the CURRENT '
+    'network and the compression the call names; not decided there: a Key (not HDKey) call that leaves script_type or encoding to the '
+    'object\'s previous address form, address_obj after the first address, contradicting argument pairs.  Missing theorem: '
+    'address_session_is_stateless (a Gallina session over (network, compressed) whose every step equals lib_key_address on the current '
+    'fields) and witness_type / prefix arguments in lib_address',
 ]
 RULE = ('boundary scalars (1, 2, 3, n-1, n-2, (n+-1)/2, 2^k, 2^k-1, sparse), the refused set (0, n, n+1, 2n, 2^256-1, 2^256, -1), '
         'seeded random scalars; every import format of each scalar and every public encoding of each point through Key and HDKey; '
@@ -44,6 +52,10 @@ RULE = ('boundary scalars (1, 2, 3, n-1, n-2, (n+-1)/2, 2^k, 2^k-1, sparse), the
         'encodings x compressed argument; the full grid network (every row of the frozen table) x script type (p2pkh, p2sh, '
         'p2sh_p2wpkh, p2sh_p2wsh, p2wpkh, p2wsh, p2tr, default) x encoding (base58, bech32, default) through Key.address, '
         'HDKey.address, Address(data), Address(hashed_data) and against the extracted frozen specification (stdaddr); '
+        'argument combinations (addrx: Address x {script_type, encoding, witness_type} full cube on every network + random prefix / '
+        'witver / compressed / data form / hashed_data; Key.address and HDKey(witness_type).address with prefix, address_uncompressed, '
+        'address_obj; Address.parse of every standard form on every network); histories on one key object (sess: address, network '
+        'change, address again for every network x witness type; random call sequences of 2..8 steps); '
         'a case is non-trivial when the implementation returns a key/address; distinct by request')
 
 # ---------------------------------------------------------------- independent oracle: curve (SEC 1 / SEC 2)
@@ -197,11 +209,16 @@ STANDARD = {('p2pkh', 'base58'), ('p2sh_p2wpkh', 'base58'), ('p2wpkh', 'bech32')
             ('p2sh', 'base58'), ('p2sh_p2wsh', 'base58')}
 
 
-def std_address(net, st, enc, data, table=None):
-    """standard address of a public key (script for p2sh / p2wsh) or None when the combination has no standard form"""
+def std_address(net, st, enc, data, table=None, pfx=None):
+    """standard address of a public key (script for p2sh / p2wsh) or None when the combination has no standard form;
+    pfx: explicit version bytes (base58) / human readable part (bech32) given by the caller instead of the network's"""
     if net not in (table or SN.REFERENCE):
         return None
     pa, ps, hrp = SN.address_prefixes(net, table)
+    if pfx is not None:
+        pa, ps, hrp = (pfx, pfx, None) if isinstance(pfx, bytes) else (None, None, pfx)
+        if (enc == 'base58') != isinstance(pfx, bytes):
+            return None
     if (st, enc) == ('p2pkh', 'base58'):
         return b58check(pa + h160(data))
     if (st, enc) == ('p2sh', 'base58'):
@@ -221,10 +238,14 @@ def std_address(net, st, enc, data, table=None):
     return None
 
 
-def std_address_of_hash(net, st, enc, h, table=None):
+def std_address_of_hash(net, st, enc, h, table=None, pfx=None):
     if net not in (table or SN.REFERENCE):
         return None
     pa, ps, hrp = SN.address_prefixes(net, table)
+    if pfx is not None:
+        pa, ps, hrp = (pfx, pfx, None) if isinstance(pfx, bytes) else (None, None, pfx)
+        if (enc == 'base58') != isinstance(pfx, bytes):
+            return None
     if (st, enc) == ('p2pkh', 'base58') and len(h) == 20:
         return b58check(pa + h)
     if (st, enc) == ('p2sh', 'base58') and len(h) == 20:
@@ -334,6 +355,8 @@ def expect_address(t, table):
         else:
             return 'none', None
         return ('none', None) if exp is None else ('exp', ('Address(...) gives', exp))
+    if t[0] == 'addrx' and t[1] != 'P':
+        return expect_addrx(t, table)
     if t[0] == 'stdaddr':
         net, st, enc, data = t[1:]
         if (st, enc) not in STANDARD or not unhx(data):
@@ -341,6 +364,198 @@ def expect_address(t, table):
         exp = std_address(net, st, enc, unhx(data), table)
         return ('none', None) if exp is None else ('exp', ('Address(data) gives', exp))
     return 'none', None
+
+
+# ---------------------------------------------------------------- argument combinations (addrx) and histories (sess)
+FAMILY = {'p2pkh': 'legacy', 'p2sh': 'legacy', 'p2sh_p2wpkh': 'p2sh-segwit', 'p2sh_p2wsh': 'p2sh-segwit',
+          'p2wpkh': 'segwit', 'p2wsh': 'segwit', 'p2tr': 'taproot'}
+FAMILY_ENC = {'legacy': 'base58', 'p2sh-segwit': 'base58', 'segwit': 'bech32', 'taproot': 'bech32'}
+FAMILY_KEY_ST = {'legacy': 'p2pkh', 'p2sh-segwit': 'p2sh_p2wpkh', 'segwit': 'p2wpkh'}
+
+
+def denote(st, enc, wt):
+    """the (script type, encoding) that the arguments script_type / encoding / witness_type of Address(...) denote, by
+    the documented meaning of each argument alone ('legacy' = old-style base58, 'segwit' = native bech32, 'p2sh-segwit' =
+    segwit nested in P2SH, base58); None when they say nothing (all absent) or contradict each other: no verdict then"""
+    if st is not None:
+        fam = FAMILY.get(st)
+        if fam is None or (wt is not None and wt != fam):
+            return None
+    elif wt is not None:
+        fam = wt
+        st = FAMILY_KEY_ST.get(wt)
+        if st is None:
+            return None
+    elif enc is not None:
+        return ('p2pkh', 'base58') if enc == 'base58' else (('p2wpkh', 'bech32') if enc == 'bech32' else None)
+    else:
+        return None
+    if enc is not None and enc != FAMILY_ENC[fam]:
+        return None
+    return st, FAMILY_ENC[fam]
+
+
+def kw_of(s):
+    return {} if s == '-' else dict(x.split('=', 1) for x in s.split(','))
+
+
+def pfx_of(kw):
+    if 'pfx' in kw:
+        return bytes.fromhex(kw['pfx'])
+    if 'pfxh' in kw:
+        return bytes.fromhex(kw['pfxh'])
+    if 'pfxs' in kw:
+        return kw['pfxs']
+    return None
+
+
+def hd_defaults(wt):
+    """script type / encoding of an HDKey built with this witness_type (default: segwit)"""
+    return {'N': ('p2wpkh', 'bech32'), 'segwit': ('p2wpkh', 'bech32'), 'legacy': ('p2pkh', 'base58'),
+            'p2sh-segwit': ('p2sh_p2wpkh', 'base58')}[wt]
+
+
+def key_call_candidates(entry, wt, kw, fresh):
+    """(script type, encoding) pairs a Key.address / HDKey.address call may denote.  One pair when the call decides it
+    (both given; HDKey fills the rest from its witness_type; a Key that never produced an address uses the documented
+    defaults base58 / p2pkh, bech32 / p2wpkh); otherwise (a Key object that remembers its previous address form) every
+    standard pair that agrees with the given arguments."""
+    st, enc = kw.get('st'), kw.get('enc')
+    if entry == 'HDKey':
+        dst, denc = hd_defaults(wt)
+        if enc is None:
+            enc = denc
+        if st is None:
+            st = dst if enc == denc else ('p2wpkh' if enc == 'bech32' else 'p2pkh')
+            if kw.get('enc') is not None and kw['enc'] != denc:
+                return None          # HDKey passes its own script type along with a foreign encoding: not decided here
+        return [(st, enc)]
+    if st is not None and enc is not None:
+        return [(st, enc)]
+    if fresh:
+        e = enc or 'base58'
+        return [(st or ('p2wpkh' if e == 'bech32' else 'p2pkh'), e)]
+    return [(s, e) for (s, e) in sorted(STANDARD) if s != 'p2tr' and st in (None, s) and enc in (None, e)]
+
+
+def key_address_set(net, pt, comps, cands, pfx, table):
+    """admissible answers: the standard address for every candidate; 'ERR' where refusing is right (segwit commits to
+    compressed keys only); None when some candidate has no standard form (no verdict)"""
+    if cands is None:
+        return None
+    ok = set()
+    for comp in comps:
+        for st, enc in cands:
+            if (st, enc) not in STANDARD or st == 'p2tr':
+                return None
+            if not comp and (enc == 'bech32' or st == 'p2sh_p2wpkh'):
+                return None          # refusing is right, anything else is not decided here
+            a = std_address(net, st, enc, ser_c(pt) if comp else ser_u(pt), table, pfx)
+            if a is None:
+                return None
+            ok.add(a)
+    return ok
+
+
+def expect_addrx(t, table):
+    if t[1] == 'A':
+        net, data, kws = t[2:]
+        kw = kw_of(kws)
+        d = denote(kw.get('st'), kw.get('enc'), kw.get('wt'))
+        wv = int(kw.get('witver', '0'))
+        if d is None:
+            return 'none', None
+        if net == 'N':
+            net = 'bitcoin'          # documented default network
+        if kw.get('hd') == '1':
+            if wv != 0 and not (d[0] == 'p2tr' and wv == 1):
+                return 'none', None
+            exp = std_address_of_hash(net, d[0], d[1], unhx(data), table, pfx_of(kw))
+        else:
+            if d[0] == 'p2tr' or wv != 0:
+                return 'none', None
+            exp = std_address(net, d[0], d[1], unhx(data), table, pfx_of(kw))
+        return ('none', None) if exp is None else ('exp', ('Address(...) for %s/%s gives' % d, exp))
+    if t[1] in ('K', 'H'):
+        net, d, cp, wt, kws = t[2:]
+        kw = kw_of(kws)
+        d = int(d)
+        if not 1 <= d < N:
+            return 'refuse', 'scalar outside [1, n-1], but the address'
+        entry = 'HDKey' if t[1] == 'H' else 'Key'
+        comp = cp == '1'
+        if kw.get('m') == 'u':
+            comp = False
+        elif 'comp' in kw and kw.get('m') != 'o':
+            comp = kw['comp'] == '1'
+        if kw.get('m') == 'o':
+            kw = {}
+        ok = key_address_set(net, ec_mul(d), [comp], key_call_candidates(entry, wt, kw, True), pfx_of(kw), table)
+        if not ok or len(ok) != 1:
+            return 'none', None
+        return 'exp', ('%s(...).address(%s) gives' % (entry, kws), list(ok)[0])
+    return 'none', None
+
+
+def parse_verdict(t, out):
+    """Address.parse of a standard address: the same address, the script type its form denotes, the committed hash"""
+    addr, net, enc = t[2:]
+    if not out.startswith('OK '):
+        return 'Address.parse refuses the standard address %s: %s' % (addr, out[:60])
+    o = out.split(' ')
+    if o[1] != addr:
+        return 'Address.parse(%s).address is %s' % (addr, o[1])
+    return None
+
+
+def sess_verdict(t, out, table):
+    """every answer of a history on one key object equals the stateless answer for the CURRENT fields of the object
+    (network after network_change; compression flag as imported, or as the call itself says)"""
+    entry, d, cp, net, wt = t[1:6]
+    steps = t[6:]
+    d = int(d)
+    if out == 'ERR import':
+        return None if not 1 <= d < N else 'valid key refused'
+    outs = out.split('|')
+    if len(outs) != len(steps):
+        return 'answers %d for %d steps' % (len(outs), len(steps))
+    pt = ec_mul(d)
+    flag = cp == '1'
+    comps = [flag]            # what "the key's own compression" means: undisputed until a call overrides it explicitly
+    fresh = True              # no address has been produced by this object yet
+    for i, (step, o) in enumerate(zip(steps, outs)):
+        f = step.split(':')
+        kw = kw_of(f[1]) if len(f) > 1 and f[0] in ('a', 'u', 'pp') else {}
+        ok = None
+        if f[0] == 'n':
+            net = f[1]
+            ok = {'ok'}
+        elif f[0] == 'pc':
+            ok = {ser_c(pt).hex()}
+        elif f[0] == 'pu':
+            ok = {ser_u(pt).hex()}
+        elif f[0] in ('ph', 'pb'):
+            ok = {(ser_c(pt) if c else ser_u(pt)).hex() for c in comps}
+        elif f[0] == 'h':
+            ok = {h160(ser_c(pt) if c else ser_u(pt)).hex() for c in comps}
+        elif f[0] in ('a', 'u', 'o', 'pp'):
+            cs_ = [False] if f[0] == 'u' else ([kw['comp'] == '1'] if 'comp' in kw else comps)
+            if f[0] == 'o' and not fresh:
+                ok = None         # address_obj hands out the object of the last address() call by design
+            elif entry == 'Key' and not (fresh and f[0] != 'pp') and not ('st' in kw and 'enc' in kw):
+                ok = None         # a Key object fills absent arguments from its previous address form: not decided here
+            else:
+                ok = key_address_set(net, pt, cs_, key_call_candidates(entry, wt, kw, True), pfx_of(kw), table)
+            if f[0] != 'pp':
+                fresh = False
+                if len(cs_) == 1 and cs_[0] != flag:
+                    comps = [True, False]
+        else:
+            return 'bad step ' + step
+        if ok is not None and o not in ok:
+            return 'step %d (%s) of the history on one %s object answers %s, the stateless answer for network %s is %s' % (
+                i + 1, step, entry, o[:90], net, ' or '.join(sorted(ok))[:200])
+    return None
 
 
 def prop_check(c, out):
@@ -378,7 +593,11 @@ def prop_check(c, out):
             return None if out == 'ERR import' else 'not a key, but hash160 %s is returned' % out[:60]
         exp = h160(ser_c(pt) if k[2] else ser_u(pt)).hex()
         return None if out == exp else 'Key.hash160 = %s, RIPEMD160(SHA256(public key)) = %s' % (out[:60], exp)
-    if t[0] in ('addr', 'address', 'stdaddr'):
+    if t[0] == 'sess':
+        return sess_verdict(t, out, SN.REFERENCE)
+    if t[0] == 'addrx' and t[1] == 'P':
+        return parse_verdict(t, out)
+    if t[0] in ('addr', 'address', 'stdaddr', 'addrx'):
         kind, val = expect_address(t, SN.REFERENCE)
         if kind == 'none':
             return None
@@ -412,6 +631,17 @@ def _cls(c):
             return 'p2tr_from_key_sha256'
     if t[0] == 'stdaddr' and t[2] == 'p2tr' and t[3] == 'bech32':
         return 'p2tr_from_key_sha256'
+    if t[0] == 'addrx' and t[1] == 'A':
+        kw = kw_of(t[4])
+        if kw.get('st') == 'p2tr' and kw.get('wt') == 'taproot' and kw.get('witver', '0') == '0' and kw.get('hd') == '1':
+            return 'p2tr_explicit_taproot_witver0'
+    if t[0] == 'sess':
+        seen = False
+        for step in t[6:]:
+            f = step.split(':')
+            if f[0] in ('a', 'u') and seen and ('pfx=' in step or 'pfxs=' in step):
+                return 'address_prefix_arg_reuses_cached_object'
+            seen = seen or f[0] in ('a', 'u', 'o')
     return None
 
 
@@ -420,9 +650,16 @@ def _documented_deviation(c, io):
     address version bytes are a documented deviation from the reference client (regtest: mainnet 00 / 05 instead of 6f / c4);
     any other answer on such a network is outside the class"""
     t = c.req.split(' ')
-    if t[0] not in ('addr', 'address', 'stdaddr'):
+    if t[0] == 'sess':
+        nets_ = [t[4]] + [x[2:] for x in t[6:] if x.startswith('n:')]
+        if not any(SN.deviates(n, 'prefix_address') or SN.deviates(n, 'prefix_address_p2sh') for n in nets_):
+            return False
+        return sess_verdict(t, io, SN.REFERENCE) is not None and sess_verdict(t, io, SN.FROZEN) is None
+    if t[0] not in ('addr', 'address', 'stdaddr', 'addrx') or (t[0] == 'addrx' and t[1] == 'P'):
         return False
-    net = t[5] if t[0] == 'addr' else t[1]
+    net = t[5] if t[0] == 'addr' else (t[2] if t[0] == 'addrx' else t[1])
+    if net == 'N':
+        return False
     if not (SN.deviates(net, 'prefix_address') or SN.deviates(net, 'prefix_address_p2sh') or SN.deviates(net, 'prefix_bech32')):
         return False
     kr, vr = expect_address(t, SN.REFERENCE)
@@ -430,11 +667,14 @@ def _documented_deviation(c, io):
     return kr == 'exp' and kf == 'exp' and vr[1] != vf[1] and io == vf[1]
 
 
+PROPOSED_CLASSES = ('p2tr_explicit_taproot_witver0', 'address_prefix_arg_reuses_cached_object')
 KNOWN_CLASSES = {
     'hex128_wide_secret': lambda c, io, mo: _cls(c) == 'hex128_wide_secret',
     'nonstrict_tolerated': lambda c, io, mo: _cls(c) == 'nonstrict_tolerated',
     'p2tr_from_key_sha256': lambda c, io, mo: _cls(c) == 'p2tr_from_key_sha256',
     'hash_ascii_hex': lambda c, io, mo: _cls(c) == 'hash_ascii_hex',
+    'p2tr_explicit_taproot_witver0': lambda c, io, mo: _cls(c) == 'p2tr_explicit_taproot_witver0',
+    'address_prefix_arg_reuses_cached_object': lambda c, io, mo: _cls(c) == 'address_prefix_arg_reuses_cached_object',
     'regtest_mainnet_version_bytes': lambda c, io, mo: _cls(c) is None and _documented_deviation(c, io),
 }
 
@@ -652,6 +892,134 @@ def gen_cases(rng, tier):
         for st, enc in (('p2pkh', 'base58'), ('p2wpkh', 'bech32'), ('p2wsh', 'bech32'), ('p2tr', 'bech32'), ('p2sh', 'base58')):
             cs.append(Case('address_hexlike', 'address bitcoin %s %s 0 - %s' % (st, enc, hx(h))))
     cs.append(Case('address_empty', 'address bitcoin p2pkh base58 0 - -'))
+    # ---- ARGUMENT COMBINATIONS: every way the arguments of Address(...) / Key.address / HDKey.address / Address.parse can
+    #      name an address form (witness_type without script_type, script_type without witness_type, encoding alone,
+    #      contradicting pairs, explicit prefix, witver, compressed, str / bytes / positional data, hashed_data)
+    WTS = [None, 'legacy', 'segwit', 'p2sh-segwit', 'taproot']
+
+    def kws(**kw):
+        return ','.join('%s=%s' % (k, v) for k, v in kw.items() if v is not None) or '-'
+
+    xkeys = [1, rnd[1]] + ([N - 1] + rnd[2:6] if big else [])
+    for net in NETS + ['N']:
+        for d in xkeys if net in ('bitcoin', 'N') or big else [rng.choice(pool)]:
+            pt = ec_mul(d)
+            for st in [None] + ALL_STS:
+                for enc in [None] + ENCS:
+                    for wt in WTS:
+                        cs.append(Case('argcombo_address', 'addrx A %s %s %s' % (net, ser_c(pt).hex(), kws(st=st, enc=enc, wt=wt))))
+    for _ in range(20000 if big else 900):
+        pt = ec_mul(rng.choice(pool))
+        st, enc, wt = rng.choice([None] + ALL_STS), rng.choice([None] + ENCS), rng.choice(WTS)
+        dn = denote(st, enc, wt)
+        kw = dict(st=st, enc=enc, wt=wt)
+        r = rng.random()
+        if r < 0.3 and dn:
+            if dn[1] == 'base58':
+                kw[rng.choice(['pfx', 'pfxh'])] = rng.choice(['00', '05', '6f', 'c4', '30', '1e', '16', rng.randbytes(1).hex(), '1cb8'])
+            else:
+                kw['pfxs'] = rng.choice(['bc', 'tb', 'ltc', 'bcrt', 'xy', 'doge'])
+        if rng.random() < 0.3:
+            kw['comp'] = rng.choice('10')
+        if rng.random() < 0.15:
+            kw['witver'] = rng.choice([0, 0, 1, 2])
+        net = rng.choice(NETS + ['N'])
+        if rng.random() < 0.3:
+            ln = 32 if dn and dn[0] in ('p2wsh', 'p2sh_p2wsh', 'p2tr') else 20
+            data = bytes(rng.randrange(128, 256) for _ in range(ln))
+            kw['hd'] = 1
+            if dn and dn[0] == 'p2tr':
+                kw['witver'] = rng.choice([0, 1])
+        else:
+            data = rng.choice([ser_c(pt), ser_c(pt), ser_u(pt)])
+            kw[rng.choice(['form', 'pos'])] = rng.choice(['hex', '1']) if rng.random() < 0.5 else None
+            if kw.get('pos') == 'hex':
+                kw['pos'] = '1'
+            if kw.get('form') == '1':
+                kw['form'] = 'hex'
+        cs.append(Case('argcombo_address', 'addrx A %s %s %s' % (net, data.hex(), kws(**kw))))
+    KSTS = [None, 'p2pkh', 'p2sh_p2wpkh', 'p2wpkh', 'p2sh', 'p2wsh', 'p2sh_p2wsh']
+    HWTS = ['N', 'legacy', 'segwit', 'p2sh-segwit']
+    for net in NETS:
+        d = rng.choice(pool)
+        for wt in HWTS:
+            for cp in '10':
+                for m in (None, 'u', 'o'):
+                    cs.append(Case('argcombo_key', 'addrx H %s %d %s %s %s' % (net, d, cp, wt, kws(m=m))))
+                    if wt == 'N':
+                        cs.append(Case('argcombo_key', 'addrx K %s %d %s N %s' % (net, d, cp, kws(m=m))))
+    for _ in range(20000 if big else 900):
+        d = rng.choice(pool)
+        kw = dict(st=rng.choice(KSTS), enc=rng.choice([None] + ENCS), comp=rng.choice([None, None, '1', '0']),
+                  m=rng.choice([None, None, None, 'u']))
+        if rng.random() < 0.25:
+            if kw['enc'] == 'bech32':
+                kw['pfxs'] = rng.choice(['bc', 'tb', 'ltc', 'xy'])
+            else:
+                kw[rng.choice(['pfx', 'pfxh'])] = rng.choice(['00', '05', '6f', 'c4', '30', '1e', rng.randbytes(1).hex()])
+        if rng.random() < 0.5:
+            cs.append(Case('argcombo_key', 'addrx K %s %d %s N %s' % (rng.choice(NETS), d, rng.choice('10'), kws(**kw))))
+        else:
+            cs.append(Case('argcombo_key', 'addrx H %s %d %s %s %s' % (rng.choice(NETS), d, rng.choice('110'), rng.choice(HWTS), kws(**kw))))
+    for net in NETS:
+        if SN.deviates(net, 'prefix_address') or SN.deviates(net, 'prefix_address_p2sh'):
+            continue
+        for rep in range(3 if big else 1):
+            pt = ec_mul(rng.choice(pool))
+            for st, enc in sorted(STANDARD):
+                a = std_address(net, st, enc, ser_c(pt))
+                if a:
+                    for narg in (net, 'N'):
+                        cs.append(Case('argcombo_parse', 'addrx P %s %s %s' % (a, narg, rng.choice(['N', 'N', enc]))))
+    # ---- HISTORIES on one key object: address() / address_uncompressed() / hash160 / public_* reads interleaved with
+    #      network_change, other argument sets, explicit compressed arguments, repeated calls
+    def rand_call(entry):
+        kw = dict(st=rng.choice(KSTS[:4] + [None, None]), enc=rng.choice([None, None] + ENCS), comp=rng.choice([None, None, None, '1', '0']))
+        if kw['enc'] == 'base58' and rng.random() < 0.2:
+            kw['pfxh'] = rng.choice(['00', '05', '6f', '30'])
+        return kws(**kw)
+
+    FULL = ['st=p2pkh,enc=base58', 'st=p2sh_p2wpkh,enc=base58', 'st=p2wpkh,enc=bech32', 'st=p2wsh,enc=bech32', 'st=p2sh,enc=base58', '-']
+    snets = [n for n in NETS]
+    for net in snets:
+        for net2 in (snets if big else rng.sample(snets, 4)):
+            if net2 == net:
+                continue
+            for wt in HWTS:
+                call = rng.choice(FULL)
+                cs.append(Case('history_network', 'sess HDKey %d %s %s %s a:%s n:%s a:%s h pc' % (
+                    rng.choice(pool), rng.choice('110'), net, wt, call, net2, call)))
+            call = rng.choice(FULL[:5])
+            cs.append(Case('history_network', 'sess Key %d %s %s N a:%s n:%s a:%s' % (rng.choice(pool), rng.choice('110'), net, call, net2, call)))
+    for _ in range(6000 if big else 350):
+        entry = rng.choice(['HDKey', 'HDKey', 'Key'])
+        wt = rng.choice(HWTS) if entry == 'HDKey' else 'N'
+        steps = []
+        for _ in range(rng.randrange(2, 9)):
+            r = rng.random()
+            if r < 0.4:
+                steps.append('a:' + (rand_call(entry) if rng.random() < 0.6 else rng.choice(FULL)))
+            elif r < 0.5:
+                steps.append('u:' + rng.choice(['-', 'st=p2pkh,enc=base58', 'st=p2sh,enc=base58', 'enc=base58']))
+            elif r < 0.7:
+                steps.append('n:' + rng.choice(snets))
+            elif r < 0.75:
+                steps.append('pp:' + rng.choice(FULL))
+            elif r < 0.78 and not steps:
+                steps.append('o')
+            else:
+                steps.append(rng.choice(['h', 'pc', 'pu', 'ph', 'pb']))
+        cs.append(Case('history_random', 'sess %s %d %s %s %s %s' % (entry, rng.choice(pool), rng.choice('110'), rng.choice(snets), wt, ' '.join(steps))))
+    # explicit prefix equal to the prefix of the object's previous address (bytes / hrp text): proposed known class
+    for net, pf, hrp in (('bitcoin', '00', 'bc'), ('testnet', '6f', 'tb'), ('litecoin', '30', 'ltc')):
+        d = rng.choice(pool)
+        cs.append(Case('history_prefix', 'sess Key %d 1 %s N a:st=p2pkh,enc=base58 a:st=p2pkh,enc=base58,comp=0,pfx=%s' % (d, net, pf)))
+        cs.append(Case('history_prefix', 'sess HDKey %d 1 %s legacy a:st=p2pkh,enc=base58 n:dogecoin a:st=p2pkh,enc=base58,comp=0,pfx=%s h' % (d, net, pf)))
+        cs.append(Case('history_prefix', 'sess HDKey %d 1 %s segwit a:- a:st=p2wsh,enc=bech32,pfxs=%s' % (d, net, hrp)))
+    # a class PROPOSED as known (fixes/C04-known-*.json) is exercised only once it is recorded (known_findings.json or
+    # VERIF_EXTRA_KNOWN); until then its requests are left out so that the unchanged tree stays green
+    recorded = {e.get('class') or e.get('id') for e in core.load_known(PROP) if e.get('status') == 'known'}
+    cs = [c for c in cs if _cls(c) not in PROPOSED_CLASSES or _cls(c) in recorded]
     # ---- mod_sqrt
     for a in list(range(0, 200)) + [P - 1, P, P + 1, P + 4] + [rng.randrange(1 << 256) for _ in range(5000 if big else 500)]:
         cs.append(Case('modsqrt', 'modsqrt %d' % a))
